@@ -185,6 +185,13 @@ def designspace_section(ctx):
             g["components"] = [(b, tuple(t[:4]) + (Fr(round(t[4])) + Fr(1, 2), Fr(round(t[5])) + Fr(1, 4))) for b, t in g["components"]]
         masters = [base, dsgen.perturb(rng, base, 1)]
         how = ["compileInterpolatableOTFsFromDS", "compileVariableCFF2"][(i // 3) % 2]
+        plain = [g for g in masters[1]["glyphs"] if g["contours"] and not g["components"]]
+        if how == "compileInterpolatableOTFsFromDS" and i % 3 == 1 and len(plain) >= 2:
+            # a glyph drawn with contours in the first master is a MIRRORED component of another glyph in the last one (the
+            # masters of this function need not be compatible: each is judged against its own source)
+            plain[0]["contours"] = []
+            plain[0]["components"] = [(plain[1]["name"], (Fr(-1), Fr(0), Fr(0), Fr(1), Fr(700) + Fr(1, 2), Fr(1, 4)))]
+            ctx.klass("sem:designspace: contours in one master, mirrored component in the other")
         case = {"function": how, "options": {"roundTolerance": tol_opt}, "lib": lib, "font": jsonable(base), "last_master": jsonable(masters[1]),
                 "level": "designspace CFF"}
         ctx.count(); ctx.klass("sem:designspace:%s/tol=%s" % (how, tol_opt)); ctx.nontriv(("ds", i, ctx.scale))
